@@ -24,13 +24,16 @@ between two collection increments), interleaved with arbitrary collector-model o
 * `not_in_set_after_last_drop`, `collectable_after_last_drop` — second half.
 * `fetch_is_the_stashed_object`, `fetch_holds` — `fetch` returns the content of the set object's slot.
 * `drop_outside_callback_net_effect`, `stash_net_effect` — what the encodings do to the arena.
+* `arena_drop_destroys_sets`, `handles_outlive_arena` — the arena drop, coupled with `destroySet`.
 
 What is assumed / encoded — **restrictions R1–R6 of Proofs/DynCompose.lean**: one arena; every set
-object is stored directly in a root slot that is never overwritten (so it is strongly reachable
-from the root and never collected; no `destroySet`, no arena drop in coupled histories); the set
-object is allocated with a fixed number `cap` of slots and a `stash` needing index `≥ cap` is not a
-coupled operation; client stores into set objects are excluded (the field is private); a handle
-dropped while the client holds a `MarkedArena` forfeits the `finalize` call.  The two theorems
+object is stored directly in a root slot that is never overwritten (so, while the arena exists, it
+is strongly reachable from the root and never collected; `destroySet` occurs only as part of the
+arena drop); the set object is allocated with a fixed number `cap` of slots and a `stash` needing
+index `≥ cap` is not a coupled operation; client stores into set objects are excluded (the field is
+private); a handle dropped while the client holds a `MarkedArena` forfeits the `finalize` call; in
+the `Dynamic…::drop` encoding inside a running callback the set pointer joins the held pointers
+(conservative).  The two theorems
 `closure_accessible`, `stashed_survives` below are the earlier, hypothesis-carrying form and are
 what `stashed_survives_while_handle` instantiates.
 -/
@@ -83,7 +86,7 @@ theorem set_object_mirrors_table (n : Nat) (ops : List COp) (S : Sys) (hS : S = 
         (o.slots[i]? = some none ↔ ∀ r c, rs.slots.slots[i]? ≠ some (DynRoots.Slot.occupied r c))) ∧
       (∀ p, some (Ptr.strong p) ∈ o.slots ↔ p ∈ rs.slots.traced) := by
   subst hS
-  have hc := coupled_run n ops
+  have hc := (coupled_run n ops).live_of_liveSet hl
   obtain ⟨hsets, _⟩ := DynRoots.liveSet_eq_some.1 hl
   have hlt : s < ((Sys.init n).run ops).loc.length := by
     rw [hc.len]; exact (List.getElem?_eq_some_iff.1 hsets).1
@@ -120,12 +123,14 @@ theorem set_object_mirrors_table (n : Nat) (ops : List COp) (S : Sys) (hS : S = 
 
 /-! ## First half: a stashed object survives while a handle exists -/
 
-/-- Every set object is strongly reachable from the root (restriction R2 makes this hold by
-construction; it is the property's premise "a DynamicRootSet that is reachable from the root"). -/
+/-- While the arena exists, every set object is strongly reachable from the root (restriction R2
+makes this hold by construction; it is the property's premise "a DynamicRootSet that is reachable
+from the root"). -/
 theorem set_reachable (n : Nat) (ops : List COp) (S : Sys) (hS : S = (Sys.init n).run ops)
-    (s : Nat) (l : SetLoc) (hl : S.loc[s]? = some l) : StrongReach S.a l.id := by
+    (halive : S.a.alive = true) (s : Nat) (l : SetLoc) (hl : S.loc[s]? = some l) :
+    StrongReach S.a l.id := by
   subst hS
-  have hc := coupled_run n ops
+  have hc := (coupled_run n ops).live halive
   have hs : s < ((Sys.init n).run ops).d.sets.length := by
     rw [← hc.len]; exact (List.getElem?_eq_some_iff.1 hl).1
   exact (hc.sets s l _ hl (List.getElem?_eq_getElem hs)).1.reach
@@ -141,10 +146,10 @@ theorem stashed_survives_while_handle (n : Nat) (ops : List COp) (S : Sys)
     (hl : S.d.liveSet h.set = some rs) :
     StrongReach S.a h.ptr ∧ ∀ j, AccessibleC S.a.ctx [] [Ptr.strong h.ptr] j → Safe S.a.ctx j := by
   obtain ⟨l, o, hloc, _, ho, _, _, _, _, _, hmem⟩ := set_object_mirrors_table n ops S hS h.set rs hl
-  have hc : Coupled n S := by rw [hS]; exact coupled_run n ops
+  have hc : Live n S := (show Coupled n S by rw [hS]; exact coupled_run n ops).live_of_liveSet hl
   have htr : h.ptr ∈ rs.slots.traced := C14.traced_while_handle S.dops S.d hc.dyn h hm rs hl
   have hp : some (Ptr.strong h.ptr) ∈ o.slots := (hmem h.ptr).2 htr
-  have hreach := set_reachable n ops S hS h.set l hloc
+  have hreach := set_reachable n ops S hS hc.alive h.set l hloc
   refine ⟨.edge l.id h.ptr hreach ⟨o, ho, hp⟩, ?_⟩
   have harena := hc.arena
   have halive : ((Arena.new n).run S.aops).alive = true := by rw [← harena]; exact hc.alive
@@ -170,24 +175,26 @@ theorem not_in_set_after_last_drop (n : Nat) (ops : List COp) (S : Sys) (hS : S 
   obtain ⟨l', o', hloc', _, ho', _, _, _, _, _, hmem⟩ := set_object_mirrors_table n ops S hS s rs hl
   rw [hloc] at hloc'; cases hloc'
   rw [ho] at ho'; cases ho'
-  have hc : Coupled n S := by rw [hS]; exact coupled_run n ops
+  have hc : Live n S := (show Coupled n S by rw [hS]; exact coupled_run n ops).live_of_liveSet hl
   intro hp
   exact C14.untraced_after_last_drop S.dops S.d hc.dyn s p rs hl hnone ((hmem p).1 hp)
 
 /-- **`collectable_after_last_drop`.**  Outside callbacks, once no live handle of set `s` has pointer
 `p`: if `p` is not strongly reachable from the root by any route other than the edge
 "set object of `s` → `p`", then `p` is not strongly reachable at all, and after two
-`arena.finish_cycle()` calls (coupled ops `fc`) `p` is no longer an allocated undestructed object
-(`C02.exactness`); the two calls touch neither the slot tables nor the handles. -/
+`arena.finish_cycle()` calls (the coupled ops `fc`, i.e. two `.collect .finishCycle` ops of the
+collector model) `p` is no longer an allocated undestructed object (`C02.exactness_run`); the two
+calls touch neither the slot tables nor the handles. -/
 theorem collectable_after_last_drop (n : Nat) (ops : List COp) (S : Sys) (hS : S = (Sys.init n).run ops)
     (s p : Nat) (rs : RootSet) (hl : S.d.liveSet s = some rs)
     (hnone : ∀ h ∈ S.d.handles, h.set = s → h.ptr ≠ p) (l : SetLoc) (hloc : S.loc[s]? = some l)
     (hcb : S.a.cb = none) (hother : ¬ ReachAvoiding S.a.ctx S.a.root l.id p p) :
     ¬ StrongReach S.a p ∧
-    ((S.step fc).step fc).a.ctx = C02.finishCycle2 S.a.ctx S.a.root ∧
+    ((S.step fc).step fc).a =
+      S.a.run [.collect .finishCycle .drop none none, .collect .finishCycle .drop none none] ∧
     ((S.step fc).step fc).d = S.d ∧
     ¬ ∃ o, ((S.step fc).step fc).a.ctx.heap.get p = some o ∧ o.live = true := by
-  have hc : Coupled n S := by rw [hS]; exact coupled_run n ops
+  have hc : Live n S := (show Coupled n S by rw [hS]; exact coupled_run n ops).live_of_liveSet hl
   have hnot := not_in_set_after_last_drop n ops S hS s p rs hl hnone l hloc
   have havoid : ∀ j, StrongReach S.a j → ReachAvoiding S.a.ctx S.a.root l.id p j := by
     intro j hj
@@ -200,15 +207,19 @@ theorem collectable_after_last_drop (n : Nat) (ops : List COp) (S : Sys) (hS : S
       obtain ⟨o, ho, hp⟩ := e
       exact hnot o ho hp
   have hunreach : ¬ StrongReach S.a p := fun hr => hother (havoid p hr)
-  obtain ⟨c1, r1, cb1, d1, _⟩ := hc.finishCycle hcb
-  have hc1 : Coupled n (S.step fc) := hc.step fc
-  obtain ⟨c2, _, _, d2, _⟩ := hc1.finishCycle cb1
-  have hctx : ((S.step fc).step fc).a.ctx = C02.finishCycle2 S.a.ctx S.a.root := by
-    rw [c2, c1, r1]; rfl
-  refine ⟨hunreach, hctx, d2.trans d1, ?_⟩
-  rw [hctx]
-  intro hex
-  exact hunreach ((C02.exactness _ _ (cinv0 hc.inv hcb) p).mp hex)
+  have ha : ((S.step fc).step fc).a =
+      S.a.run [.collect .finishCycle .drop none none, .collect .finishCycle .drop none none] := by
+    simp [Sys.step, fc, Sys.allowed, Sys.doA, Arena.run]
+  have hd : ((S.step fc).step fc).d = S.d := by
+    simp [Sys.step, fc, Sys.allowed, Sys.doA]
+  refine ⟨hunreach, ha, hd, ?_⟩
+  rw [ha]
+  have harena := hc.arena
+  have hex := C02.exactness_run n S.aops
+  simp only at hex
+  rw [← harena] at hex
+  intro hlive
+  exact hunreach (((hex hc.alive hcb).2.2 p).mp hlive)
 
 /-! ## fetch -/
 
@@ -221,7 +232,7 @@ theorem fetch_is_the_stashed_object (n : Nat) (ops : List COp) (S : Sys) (hS : S
     DynRoots.step S.d (.fetch s h) = .ok S.d (.ptr h.ptr) ∧
     ∃ l o, S.loc[s]? = some l ∧ S.a.ctx.heap.get l.id = some o ∧
       o.slots[h.index]? = some (some (.strong h.ptr)) := by
-  have hc : Coupled n S := by rw [hS]; exact coupled_run n ops
+  have hc : Live n S := (show Coupled n S by rw [hS]; exact coupled_run n ops).live_of_liveSet hl
   obtain ⟨hf, _, _, hocc, _⟩ := (C14.fetch_identity S.dops S.d hc.dyn s rs h hl hm).1 hs
   obtain ⟨l, o, hloc, _, ho, _, _, _, hiff, _, _⟩ := set_object_mirrors_table n ops S hS s rs hl
   exact ⟨hf, l, o, hloc, ho, (hiff h.index h.ptr).2 hocc⟩
@@ -238,7 +249,7 @@ theorem fetch_holds (n : Nat) (ops : List COp) (S : Sys) (hS : S = (Sys.init n).
     (∃ l, S.loc[s]? = some l ∧
       ((S.a.step (.readRoot l.slot)).1.step (.read l.id h.index)).2 = Arena.showPtr (.strong h.ptr)) ∧
     Safe (S.step (.fetch s h)).a.ctx h.ptr := by
-  have hc : Coupled n S := by rw [hS]; exact coupled_run n ops
+  have hc : Live n S := (show Coupled n S by rw [hS]; exact coupled_run n ops).live_of_liveSet hl
   obtain ⟨hsets, _⟩ := DynRoots.liveSet_eq_some.1 hl
   obtain ⟨_, l, o, hloc, ho, hslot⟩ := fetch_is_the_stashed_object n ops S hS s rs h hl hm hs
   obtain ⟨hh, _⟩ := hc.sets s l rs hloc hsets
@@ -251,7 +262,7 @@ theorem fetch_holds (n : Nat) (ops : List COp) (S : Sys) (hS : S = (Sys.init n).
   have hcont : DynRoots.containsB s h = true := by simp [DynRoots.containsB, hs]
   have e : S.step (.fetch s h) = (S.doA (fetchOps l h)).doD (.fetch s h) := by
     simp [Sys.step, Sys.fetchLike, hloc, hc.alive, hcs, hm, hl, hcont]
-  have hc' : Coupled n (S.step (.fetch s h)) := hc.step _
+  have hc' : Live n (S.step (.fetch s h)) := hc.step _ (by intro e; cases e)
   rw [e] at hc' ⊢
   refine ⟨f5, f1, f2, DynRoots.next_fetch _ _ _, ⟨l, hloc, f7⟩, ?_⟩
   exact hc'.inv.ptrOK_of_holds (p := .strong h.ptr) f5
@@ -271,7 +282,7 @@ theorem drop_outside_callback_net_effect (n : Nat) (ops : List COp) (S : Sys)
       (S.step (.dropHandle h)).a =
         { S.a with marked := false, ctx := Arena.setSlot S.a.ctx l.id h.index none } ∧
       (S.step (.dropHandle h)).d = DynRoots.next S.d (.dropHandle h) := by
-  have hc : Coupled n S := by rw [hS]; exact coupled_run n ops
+  have hc : Live n S := (show Coupled n S by rw [hS]; exact coupled_run n ops).live_of_liveSet hl
   obtain ⟨hsets, _⟩ := DynRoots.liveSet_eq_some.1 hl
   have hlt : h.set < S.loc.length := by
     rw [hc.len]; exact (List.getElem?_eq_some_iff.1 hsets).1
@@ -297,7 +308,7 @@ theorem stash_net_effect (n : Nat) (ops : List COp) (S : Sys) (hS : S = (Sys.ini
     (S.step (.stash s r)).a.root = S.a.root ∧
     (S.step (.stash s r)).a.cover = .pair l.id r :: S.a.cover ∧
     (S.step (.stash s r)).d = DynRoots.next S.d (.stash s r) := by
-  have hc : Coupled n S := by rw [hS]; exact coupled_run n ops
+  have hc : Live n S := (show Coupled n S by rw [hS]; exact coupled_run n ops).live_of_liveSet hl
   obtain ⟨hsets, _⟩ := DynRoots.liveSet_eq_some.1 hl
   obtain ⟨hh, _⟩ := hc.sets s l rs hloc hsets
   obtain ⟨nctx, nroot, _, _, ncover, _⟩ :=
@@ -307,5 +318,183 @@ theorem stash_net_effect (n : Nat) (ops : List COp) (S : Sys) (hS : S = (Sys.ini
     simp [Sys.step, hloc, hl, ha, hc.alive, hcs, hr, hidx]
   rw [e]
   exact ⟨nctx, nroot, ncover, rfl⟩
+
+
+/-! ## Arena drop -/
+
+/-- Dropping the arena (outside callbacks) is coupled with `destroySet` for every set: afterwards
+the arena is gone and no set is alive; the handles are untouched. -/
+theorem arena_drop_destroys_sets (n : Nat) (ops : List COp) (S : Sys) (hS : S = (Sys.init n).run ops)
+    (halive : S.a.alive = true) (hcb : S.a.cb = none) :
+    (S.step .dropArena).a.alive = false ∧ (∀ s, (S.step .dropArena).d.liveSet s = none) ∧
+    (S.step .dropArena).d = DynRoots.run S.d (destroyOps S.d.sets.length) ∧
+    (S.step .dropArena).d.handles = S.d.handles := by
+  have hc : Live n S := (show Coupled n S by rw [hS]; exact coupled_run n ops).live halive
+  have e : S.step .dropArena = (S.doA [.dropArena]).doDs (destroyOps S.d.sets.length) := by
+    simp [Sys.step, halive, hcb]
+  have hd := hc.dropArena hcb
+  rw [e]
+  obtain ⟨_, _, _, s4, _⟩ := (S.doA [.dropArena]).doDs_spec (destroyOps S.d.sets.length)
+  refine ⟨hd.dead, hd.sets, s4, ?_⟩
+  rw [s4]
+  show (DynRoots.run S.d _).handles = S.d.handles
+  have : ∀ (l : List Nat) (d : State), (DynRoots.run d (l.map .destroySet)).handles = d.handles := by
+    intro l
+    induction l with
+    | nil => intro d; rfl
+    | cons x l ih =>
+      intro d
+      simp only [List.map_cons, DynRoots.run]
+      rw [ih]
+      unfold DynRoots.next
+      simp only [DynRoots.step]
+      cases d.liveSet x <;> rfl
+  exact this (List.range S.d.sets.length) S.d
+
+/-- Handles outlive their arena harmlessly: in every coupled state whose arena has been dropped, no
+set is alive, so cloning or dropping any live handle only adds / removes the handle (no table is
+touched, nothing can panic), `fetch` / `try_fetch` / `contains` have no alive set to be called on,
+and every collector-model op is refused. -/
+theorem handles_outlive_arena (n : Nat) (ops : List COp) (S : Sys) (hS : S = (Sys.init n).run ops)
+    (hdead : S.a.alive = false) (h : Handle) (hm : h ∈ S.d.handles) :
+    (∀ s, S.d.liveSet s = none) ∧
+    DynRoots.step S.d (.clone h) = .ok { S.d with handles := h :: S.d.handles } (.handle h) ∧
+    DynRoots.step S.d (.dropHandle h) = .ok { S.d with handles := S.d.handles.erase h } .unit ∧
+    (∀ s, DynRoots.step S.d (.fetch s h) = .illFormed) ∧
+    (∀ op, (S.a.step op).1 = S.a) := by
+  have hc : Coupled n S := by rw [hS]; exact coupled_run n ops
+  have hnone := hc.dead hdead
+  obtain ⟨h1, h2⟩ := C14.outlive S.d h hm (hnone h.set)
+  refine ⟨hnone, h1, h2, fun s => ?_, fun op => step_dead hdead op⟩
+  simp [DynRoots.step, hm, hnone s]
+
+/-! ## Non-vacuity: concrete coupled runs (evaluated by the kernel) -/
+
+/-- Set 0 (object 0, two slots) in root slot 0; object 1 stashed; `finish_marking` (everything black,
+phase `Mark`, nothing gray: "Marked"); then, in a `mutate` callback, a fresh white object 2 is stashed
+into the **black** set; the callback ends; the only handle of object 1 is dropped **between two
+collection calls, outside any callback**, while the re-grayed set object is still queued; two
+`finish_cycle` calls. -/
+def demo : List COp := [
+  .gc (.enter .mutateRoot), .newSet 0 2, .gc (.alloc true [none]), .stash 0 1, .gc .leave,
+  .gc (.collect .finishMarking .drop none none),
+  .gc (.enter .mutate), .gc (.alloc true [none]), .stash 0 2, .gc .leave,
+  .dropHandle ⟨0, 0, 1, 0⟩,
+  fc, fc]
+
+/-- after `finish_marking`: "Marked", the set object is black and holds object 1 in slot 0 -/
+example : ((Sys.init 1).run (demo.take 6)).a.collectionPhase = "Marked" ∧
+    ((Sys.init 1).run (demo.take 6)).a.ctx.heap.get 0 =
+      some ⟨.black, true, true, [some (.strong 1), none]⟩ := by decide
+
+/-- the stash into the black set: the backward barrier re-grays the set object (so the white object 2
+will be traced), the raw store is accepted, the table and the object agree -/
+example : ((Sys.init 1).run (demo.take 9)).a.ctx.heap.get 0 =
+      some ⟨.gray, true, true, [some (.strong 1), some (.strong 2)]⟩ ∧
+    ((Sys.init 1).run (demo.take 9)).a.ctx.heap.get 2 = some ⟨.white, true, true, [none]⟩ ∧
+    ((Sys.init 1).run (demo.take 9)).a.ctx.grayAgain = [0] ∧
+    ((Sys.init 1).run (demo.take 9)).a.cover = [.pair 0 2] ∧
+    ((Sys.init 1).run (demo.take 9)).d.sets =
+      [⟨true, ⟨[.occupied 1 0, .occupied 2 0], DynRoots.nullIndex⟩⟩] ∧
+    ((Sys.init 1).run (demo.take 9)).d.handles = [⟨0, 1, 2, 1⟩, ⟨0, 0, 1, 0⟩] := by decide
+
+/-- The state right after the last handle of object 1 was dropped. -/
+def afterDrop : Sys := (Sys.init 1).run (demo.take 11)
+
+/-- the drop of the last handle of object 1, outside any callback, still in phase `Mark`: slot 0 of the
+set object is cleared and vacated in the table; colours and queues are as before -/
+example : afterDrop.a.ctx.heap.get 0 = some ⟨.gray, true, true, [none, some (.strong 2)]⟩ ∧
+    afterDrop.a.ctx.heap.get 1 = some ⟨.black, true, true, [none]⟩ ∧
+    afterDrop.a.ctx.phase = .mark ∧ afterDrop.a.ctx.grayAgain = [0] ∧
+    afterDrop.a.cb = none ∧ afterDrop.a.temps = [] ∧
+    afterDrop.d.sets = [⟨true, ⟨[.vacant DynRoots.nullIndex, .occupied 2 0], 0⟩⟩] ∧
+    afterDrop.d.handles = [⟨0, 1, 2, 1⟩] := by decide
+
+/-- two `finish_cycle` calls later object 1 has been destructed and released; the set object and the
+still-stashed object 2 are alive -/
+example : ((Sys.init 1).run demo).a.ctx.heap.get 1 = none ∧
+    ((Sys.init 1).run demo).a.ctx.log = [.freed 1, .dropped 1] ∧
+    ((Sys.init 1).run demo).a.ctx.heap.get 2 = some ⟨.white, true, true, [none]⟩ ∧
+    ((Sys.init 1).run demo).a.ctx.heap.get 0 = some ⟨.white, true, true, [none, some (.strong 2)]⟩ ∧
+    ((Sys.init 1).run demo).a.ctx.err = none := by decide
+
+/-- the collector-model ops the coupled run executed (the encodings, in order) -/
+example : ((Sys.init 1).run demo).aops = [
+    .enter .mutateRoot, .alloc true [none, none], .rootStore 0 (some (.strong 0)), .alloc true [none],
+    .readRoot 0, .barrier (.bb 0 (some 1)), .store .raw 0 0 (some (.strong 1)), .leave,
+    .collect .finishMarking .drop none none,
+    .enter .mutate, .alloc true [none],
+    .readRoot 0, .barrier (.bb 0 (some 2)), .store .raw 0 1 (some (.strong 2)), .leave,
+    .enter .mutate, .readRoot 0, .store .raw 0 0 none, .leave,
+    .collect .finishCycle .drop none none, .collect .finishCycle .drop none none] := rfl
+
+/-- The hypotheses of `collectable_after_last_drop` hold in `afterDrop` for set 0 and object 1: no
+handle of object 1 is left, and object 1 is reachable by no route avoiding the edge 0 → 1 … -/
+theorem afterDrop_only_via_set : ¬ ReachAvoiding afterDrop.a.ctx afterDrop.a.root 0 1 1 := by
+  have key : ∀ j, ReachAvoiding afterDrop.a.ctx afterDrop.a.root 0 1 j → j = 0 ∨ j = 2 := by
+    intro j hj
+    induction hj with
+    | root t ht =>
+      have : afterDrop.a.root = [some (.strong 0)] := by decide
+      rw [this] at ht; simp at ht; exact .inl ht
+    | edge i t _ e _ ih =>
+      obtain ⟨o, ho, hp⟩ := e
+      rcases ih with rfl | rfl
+      · have : afterDrop.a.ctx.heap.get 0 = some ⟨.gray, true, true, [none, some (.strong 2)]⟩ := by
+          decide
+        rw [this] at ho; cases ho; simp at hp; exact .inr hp
+      · have : afterDrop.a.ctx.heap.get 2 = some ⟨.white, true, true, [none]⟩ := by decide
+        rw [this] at ho; cases ho; simp at hp
+  intro h
+  rcases key 1 h with h | h <;> cases h
+
+/-- … so the theorem applies: two `finish_cycle` calls leave object 1 neither allocated nor
+undestructed (and the kernel evaluation above shows it is in fact destructed and released). -/
+example : ¬ ∃ o, ((afterDrop.step fc).step fc).a.ctx.heap.get 1 = some o ∧ o.live = true :=
+  (collectable_after_last_drop 1 (demo.take 11) afterDrop rfl 0 1
+    ⟨true, ⟨[.vacant DynRoots.nullIndex, .occupied 2 0], 0⟩⟩ (by decide) (by decide) ⟨0, 0, 2⟩ (by decide)
+    (by decide) afterDrop_only_via_set).2.2.2
+
+/-- `stashed_survives_while_handle` applies in `afterDrop` to the remaining handle (object 2, still
+white, stashed into a set that was black): it is `Safe`. -/
+example : Safe afterDrop.a.ctx 2 :=
+  (stashed_survives_while_handle 1 (demo.take 11) afterDrop rfl ⟨0, 1, 2, 1⟩ (by decide)
+    ⟨true, ⟨[.vacant DynRoots.nullIndex, .occupied 2 0], 0⟩⟩ (by decide)).2 2 (.temp 2 (by simp))
+
+/-- `fetch` inside a callback: the two reads of the encoding put the stashed pointer among the held
+pointers. -/
+example : ((Sys.init 1).run (demo.take 5 ++ [.gc (.enter .mutate), .fetch 0 ⟨0, 0, 1, 0⟩])).a.temps =
+    [.strong 1, .strong 0] := by decide
+
+/-- Slot reuse: after the drop, a new stash reuses table slot 0, and slot 0 of the set object holds
+the new pointer; the older handle (index 1) still resolves to object 2. -/
+example :
+    let S := (Sys.init 1).run (demo.take 11 ++
+      [.gc (.enter .mutate), .gc (.alloc true [none]), .stash 0 3, .gc .leave])
+    S.d.handles = [⟨0, 0, 3, 2⟩, ⟨0, 1, 2, 1⟩] ∧
+    S.a.ctx.heap.get 0 = some ⟨.gray, true, true, [some (.strong 3), some (.strong 2)]⟩ := by decide
+
+/-- Restriction R4 at work: a set object with capacity 1 accepts one stash; the second (index 1) is
+not a coupled operation and changes neither side. -/
+example :
+    let S := (Sys.init 1).run [.gc (.enter .mutateRoot), .newSet 0 1, .gc (.alloc true [none]),
+      .gc (.alloc true [none]), .stash 0 1, .stash 0 2]
+    S.d.handles = [⟨0, 0, 1, 0⟩] ∧
+    S.a.ctx.heap.get 0 = some ⟨.white, true, true, [some (.strong 1)]⟩ := by decide
+
+/-- A clone keeps the slot occupied when the original is dropped (no arena-side op at all). -/
+example :
+    let S := (Sys.init 1).run (demo.take 5 ++ [.clone ⟨0, 0, 1, 0⟩, .dropHandle ⟨0, 0, 1, 0⟩])
+    S.d.handles = [⟨0, 0, 1, 0⟩] ∧ S.d.sets = [⟨true, ⟨[.occupied 1 0], DynRoots.nullIndex⟩⟩] ∧
+    S.a.ctx.heap.get 0 = some ⟨.white, true, true, [some (.strong 1), none]⟩ ∧
+    S.aops.length = 8 := by decide
+
+/-- Arena drop: the set is destroyed; the surviving handle can still be cloned and dropped, without
+touching the (dead) table. -/
+example :
+    let S := (Sys.init 1).run (demo ++ [.dropArena, .clone ⟨0, 1, 2, 1⟩, .dropHandle ⟨0, 1, 2, 1⟩])
+    S.a.alive = false ∧ S.d.liveSet 0 = none ∧ S.d.handles = [⟨0, 1, 2, 1⟩] ∧
+    S.d.sets = [⟨false, ⟨[.vacant DynRoots.nullIndex, .occupied 2 0], 0⟩⟩] ∧
+    S.dops.length = 7 := by decide
 
 end GcArena.C14s
